@@ -73,8 +73,11 @@ scrape_configs:
 - job_name: j2
   scrape_timeout: 2s
   metric_relabel_configs:
-  - source_labels: [drop]
-    regex: "1"
+  - source_labels: [__name__, drop]
+    regex: "m_[ab];1"
+    action: drop
+  - source_labels: [__name__, idx]
+    regex: "never_there;.*"
     action: drop
   static_configs:
   - targets: ["10.0.0.2:9100"]
